@@ -12,21 +12,28 @@ def is_exc(I, e, modname, cname):
     return isinstance(e, Obj) and e.cls.issubclass(I.P.class_info(modname, cname))
 
 
+TERMINAL_STATES = {"aborting": "abort", "stopping": "stop", "halting": "halt"}
+
+
 class Tracker:
     """facts about the call in progress, distilled from events; `key()` is the part later obligations depend on"""
 
     def __init__(self, sc):
         self.sc, self.I, self.w, self.eng = sc, sc.I, sc.w, sc.eng
+        self.n_tr = 0
         self.reset_call()
         self.eng.monitors.append(self.on)
         self.eng.ghost["key"] = self            # canonicalised through canon()
+        self.eng.ghost.setdefault("on_transition", []).append(self.on_transition)
         self.sc.loop.on_cut = self.on_cut
         self.checks = []                        # property-specific callbacks (kind, *args)
 
     def reset_call(self):
-        self.terminators = frozenset()          # abort / stop / halt requested during this call chain (until idle)
+        self.terminators = frozenset()          # abort / stop / halt that took effect during this call chain (the state moved to aborting / stopping / halting)
+        self.term_requested = frozenset()       # abort / stop / halt requested (possibly refused, possibly with partial effects)
         self.interrupters = frozenset()         # pause / pause_defer / suspend requested
-        self.nonresumable_seen = False          # the engine was non-resumable at a cut after a pause / suspension request
+        self.section_nr = False                 # statement's definition: a clear_checkpoint was processed and no checkpoint since
+        self.nonresumable_seen = False          # a pause / suspension took effect while in such a non-resumable section
         self.plan_outcome = None                # None | 'returned' | 'raised'  (the user's plan)
         self.plan_exc = None
         self.failed_pause = False               # a FailedPause was thrown into a plan
@@ -34,18 +41,35 @@ class Tracker:
         self.in_call = None
 
     def canon(self, cn):
-        return ("tracker", tuple(sorted(self.terminators)), tuple(sorted(self.interrupters)), self.nonresumable_seen, self.plan_outcome,
+        return ("tracker", tuple(sorted(self.terminators)), tuple(sorted(self.term_requested)), tuple(sorted(self.interrupters)), self.section_nr, self.nonresumable_seen, self.plan_outcome,
                 cn.c(self.plan_exc), self.failed_pause, tuple(sorted(self.thrown_control)), self.in_call,
                 tuple(c.canon(cn) for c in self.checks if hasattr(c, "canon")))
 
     # ------------------------------------------------------------------
     def on_cut(self, what):
-        re = self.sc.re
-        if self.interrupters and self.I.getattr(re, "_msg_cache") is None:
-            self.nonresumable_seen = True
+        self.on("cut", what)
+
+    def on_transition(self, fr, to):
+        """called synchronously by the state machine model: the moment an interruption takes effect"""
+        if to in ("pausing", "suspending"):
+            if self.section_nr:
+                self.nonresumable_seen = True
+        elif to == "aborting":
+            e = self.I.getattr(self.sc.re, "_exception")
+            if is_exc(self.I, e, "bluesky.utils", "FailedPause") and self.section_nr:
+                self.nonresumable_seen = True          # request_suspend refusing to suspend: it aborts directly
+
+    def scan_transitions(self):
+        tr = self.eng.ghost.get("transitions", [])
+        while self.n_tr < len(tr):
+            to = tr[self.n_tr][1]
+            self.n_tr += 1
+            if to in TERMINAL_STATES:
+                self.terminators = self.terminators | {TERMINAL_STATES[to]}
 
     def on(self, kind, *a):
         I = self.I
+        self.scan_transitions()
         if kind == "call":
             self.in_call = a[0]
             if a[0] == "__call__":
@@ -54,11 +78,13 @@ class Tracker:
         elif kind == "request":
             k = a[0]
             if k in ("abort", "stop", "halt"):
-                self.terminators = self.terminators | {k}
+                self.term_requested = self.term_requested | {k}
             else:
                 self.interrupters = self.interrupters | {k}
-                if I.getattr(self.sc.re, "_msg_cache") is None:
-                    self.nonresumable_seen = True
+        elif kind in ("plan-yield", "replay-yield") and a[1].command == "clear_checkpoint":
+            self.section_nr = True
+        elif kind in ("plan-yield", "replay-yield") and a[1].command == "checkpoint":
+            self.section_nr = False
         elif kind == "plan-yield" and a[0] is self.sc.plan and a[1].command in ("pause",):
             self.interrupters = self.interrupters | {"pause-msg"}
         elif kind == "plan-return" and a[0] is self.sc.plan:
@@ -92,6 +118,7 @@ def c07_checks(sc, tr):
             st = eng.state
             w.check(f"{REQ}#lifecycle[after a blocking call returns or raises the engine is idle or paused]", st in ("idle", "paused"),
                     {"call": a[0], "state": st, "requests": list(sc.requests), "replay": "lifecycle.replay"})
+            w.ok(f"{REQ}#lifecycle[a blocking call is never left waiting with nothing that could wake it]")
         refused = eng.ghost.get("refused", [])
         while n_refused[0] < len(refused):
             fr_to = refused[n_refused[0]]
@@ -123,11 +150,11 @@ def c02_checks(sc, tr):
     def causes():
         """statuses licensed by what happened during this call"""
         allowed = {}
-        if "stop" in tr.terminators:
+        if "stop" in tr.term_requested:
             allowed["success"] = "RE.stop()"
-        if tr.terminators & {"abort", "halt"}:
+        if tr.term_requested & {"abort", "halt"}:
             allowed["abort"] = "RE.abort() / RE.halt()"
-        if tr.failed_pause or (tr.nonresumable_seen and tr.interrupters):
+        if tr.nonresumable_seen:
             allowed["abort"] = "pause / suspension in a non-resumable section"
         if tr.plan_outcome == "returned":
             allowed["success"] = "normal completion"
@@ -145,7 +172,7 @@ def c02_checks(sc, tr):
             if ok and b.stop["exit_status"] == "fail":
                 args = tr.plan_exc.attrs.get("args", ()) if isinstance(tr.plan_exc, Obj) else ()
                 ok = b.stop["reason"] == (str(args[0]) if len(args) == 1 else "")
-            if ok and b.stop["exit_status"] == "abort" and tr.terminators == {"abort"} and not tr.failed_pause and not tr.nonresumable_seen:
+            if ok and b.stop["exit_status"] == "abort" and tr.terminators == {"abort"} and tr.term_requested == {"abort"} and not tr.failed_pause and not tr.nonresumable_seen:
                 ok = b.stop["reason"] == "because"
             w.check(f"{REQ}._run#ensures[a run still open at the end is closed with the exit status and reason of how the plan ended]", ok, info)
         if kind == "returned" and a[0] in ("__call__", "resume", "abort", "stop", "halt"):
@@ -178,7 +205,7 @@ def c08_checks(sc, tr):
             w.check(f"{REQ}.{name}#ensures[returns normally only when the plan ran to completion and the engine is idle]",
                     st == "idle" and tr.plan_outcome == "returned", info)
         elif isinstance(r[1], Obj) and r[1].cls.issubclass(rei):
-            terminated = bool(tr.terminators) or tr.failed_pause or (tr.nonresumable_seen and bool(tr.interrupters))
+            terminated = bool(tr.term_requested) or tr.nonresumable_seen
             paused_ok = st == "paused" and resumable
             term_ok = terminated and st == "idle" and not open_runs
             w.check(f"{REQ}.{name}#raises[RunEngineInterrupted: paused and resumable, or terminated (abort / stop / halt / failed pause): idle with every run closed]",
